@@ -39,6 +39,8 @@ def strategy(tier):
         # (RCounter only) the resolver fails for this writer's state with this exception type; the writers after it
         # are resolved normally again
         'raise': st.sampled_from([None, None, None, None, 'AttributeError', 'RuntimeError', 'KeyError', 'TypeError']),
+        # the writer takes a savepoint after its changes (its objects are then clean copies of what the savepoint holds)
+        'savepoint': st.sampled_from([False, False, True]),
     })
     return st.fixed_dictionaries({
         'kind': st.sampled_from(['fs', 'fs', 'demo', 'demo-base']),
@@ -51,7 +53,30 @@ def strategy(tier):
         'missing_targets': st.sampled_from([False, False, True]),
         'undo_first': st.sampled_from([False, False, True]),
         'undo': st.integers(0, 3),
+        # two intermediate transactions undone in ONE transaction, in this order (None: the single undo above)
+        # ('-last': one of them is the newest change, whose record is the current one on disk)
+        'undo2': st.sampled_from([None, None, None, 'old-first', 'new-first', 'old-first-last', 'new-first-last']),
     })
+
+
+class Spy:
+    """a second participant of the writer's transaction, finished after the connection: it looks at the contested object
+    between the connection's tpc_finish and the end of the transaction (before the connection polls invalidations)"""
+
+    def __init__(self, look):
+        self.look = look
+        self.seen = None
+
+    def sortKey(self):
+        return '~~~~~~spy'
+
+    def tpc_begin(self, t):
+        pass
+
+    commit = tpc_vote = tpc_abort = abort = tpc_begin
+
+    def tpc_finish(self, t):
+        self.seen = self.look()
 
 
 def install_missing():
@@ -273,17 +298,33 @@ def execute(case):
                 setattr(o, key, ref_value(key, pool[target_name(key, ti)]))
             o._p_changed = True
         committed_model = dict(old_model)
+        new_models = {}
+        for wspec, tmw, cw, o in ws:
+            if wspec.get('savepoint'):
+                new_models[id(o)] = model_of(cw)
+                tmw.savepoint()
+                out.label('writer-took-savepoint')
         first = True
         nt = False
         states = [dict(old_model)]      # committed state after each successful commit
         tids = [None]
+        def nm_obj(v):
+            if isinstance(v, WeakRef):
+                return ('weak', v().name)
+            if isinstance(v, persistent.Persistent):
+                return ('ref', v.name)
+            return None
+
         for wspec, tmw, cw, o in ws:
-            new_model = model_of(cw)
+            new_model = new_models.get(id(o)) or model_of(cw)
             if wspec['minimize']:
                 pass
             out.evals += 1
             last = db.storage.lastTransaction()
             del vclasses.RESOLVE_LOG[:]
+            # (looked at without loading: a ghost has been discarded; a non-ghost must already hold the merged state)
+            spy = Spy(lambda o=o: 'ghost' if o._p_changed is None else canon_state(dict(o.__dict__), nm_obj))
+            tmw.get().join(spy)
             try:
                 tmw.commit()
                 ok = True
@@ -365,6 +406,11 @@ def execute(case):
                 out.fail((PROPERTY, 'resolution', 'stored-state-differs'),
                          'a fresh connection loads %r ; the resolver returned %r' % (got, merged))
                 break
+            if spy.seen != 'ghost' and spy.seen != merged:
+                out.fail((PROPERTY, 'resolution', 'writer-keeps-own-copy', 'when-its-commit-finishes'),
+                         'when the resolved commit finishes the writer\'s connection still holds its own copy %r ; merged state '
+                         'is %r (only a later invalidation message would correct it)' % (spy.seen, merged))
+                break
             got = model_of(cw)      # the writer's own copy was discarded: it reads the merged state
             if got != merged:
                 out.fail((PROPERTY, 'resolution', 'writer-keeps-own-copy'),
@@ -381,7 +427,59 @@ def execute(case):
             cw.close()
         # ---- the undo path: undoing a transaction that is not the object's latest change resolves with
         # (state the undone transaction wrote, state now committed, state before the undone transaction)
-        if variant == 'RCounter' and kind == 'fs' and not out.failures and len(states) >= 3 and case.get('undo'):
+        if (variant == 'RCounter' and kind == 'fs' and not out.failures and len(states) >= 3 and case.get('undo')
+                and case.get('undo2')):
+            # two changes undone in one transaction: the second merge starts from the first one's result
+            import base64
+            from ZODB.POSException import UndoError
+            k_last = len(states) - 1
+            j1 = 1 + (case['undo'] - 1) % k_last
+            j2 = k_last if case['undo2'].endswith('-last') else 1 + (j1 % k_last)
+            js = sorted({j1, j2})
+            skip = True
+            if len(js) == 2 and tids[js[0]] != tids[js[1]]:
+                skip = False
+                if case['undo2'].startswith('new-first'):
+                    js.reverse()
+                current = states[-1]
+                for n_, j in enumerate(js):
+                    undone, pre = states[j], states[j - 1]
+                    if j == k_last and n_ == 0:
+                        current = pre       # (the newest record itself: nothing to merge, the previous state comes back)
+                        continue
+                    if undone == current:
+                        skip = True     # (copy or merge: both allowed, see the single undo below)
+                        break
+                    merged = dict(pre)
+                    merged['n'] = current['n'] + pre['n'] - undone['n']
+                    for k2, v in current.items():
+                        if k2.startswith('c_'):
+                            merged[k2] = v
+                    current = merged
+            if True:
+                if not skip:
+                    tmu = transaction.TransactionManager()
+                    out.evals += 1
+                    try:
+                        db.undoMultiple([base64.encodebytes(tids[j]).rstrip() for j in js], tmu.get())
+                        tmu.commit()
+                    except UndoError as e:
+                        tmu.abort()
+                        out.fail((PROPERTY, 'undo-resolution', 'refused'),
+                                 'undo of two resolvable intermediate changes in one transaction was refused: %s' % e)
+                    else:
+                        tmf = transaction.TransactionManager()
+                        cf = db.open(tmf)
+                        got = model_of(cf)
+                        tmf.abort()
+                        cf.close()
+                        if got != current:
+                            out.fail((PROPERTY, 'undo-resolution', 'stored-state-differs', 'two-undos-in-one-transaction'),
+                                     'after undoing writers %r in one transaction a fresh connection loads %r ; the resolver\'s '
+                                     'merges give %r' % (js, got, current))
+                        else:
+                            out.label('undo-path-resolved-twice-in-one-transaction')
+        elif variant == 'RCounter' and kind == 'fs' and not out.failures and len(states) >= 3 and case.get('undo'):
             import base64
             j = 1 + (case['undo'] - 1) % (len(states) - 2)        # states[0] = initial; undo writer j (not the last)
             tid_j = tids[j]
